@@ -3,6 +3,7 @@ C06 — helper lemmas for Props/C06.lean (refinement of the model `evaluate` to 
 validation, ordering, kwargs, extras, batching).
 -/
 import CobaVerif.Model.C06
+import CobaVerif.Generated.C06Tables
 
 set_option linter.unusedSimpArgs false
 set_option linter.unusedVariables false
@@ -3283,4 +3284,366 @@ theorem readRow_missing_context {c : Config} {fl : Flags} {d : Dict (Fld V R)} (
     (hd : d.get? "context" = none) : readRow c fl d = .error (.keyError "context") := by
   simp [readRow, whenHas, hf, hd, getVal, bind, Except.bind]
 
+/-! ## Phase 4: every accepted mode (package guard, reward targets), record-field set -/
+
+end Coba.C06
+
+namespace Coba.C06
+section Phase4
+variable {V R σ : Type}
+
+theorem requiredX_base' (c : ConfigX) (c0 : Config) (hs : Bool) (h : c.base = some c0) :
+    requiredX c hs = required c0 hs ∧ shouldPredX c hs = shouldPred c0 hs ∧ evalTargetX c = evalTarget c0
+      ∧ opeFilters c = (if learnIps c0 then [(OpeType.ips, "learn_rewards")] else [])
+          ++ (if evalIpsOwn c0 then [(OpeType.ips, "eval_rewards")] else []) := by
+  obtain ⟨l, e, rec⟩ := c
+  cases l <;> cases e <;> simp [ConfigX.base, LearnModeX.base, EvalModeX.base] at h <;> subst h <;>
+    simp +decide [requiredX, required, shouldPredX, shouldPred, evalTargetX, evalTarget, opeFilters, learnType, evalType, evalOwnX,
+      learnIps, evalIpsOwn, outActionX, outProbX, outAction, outProb, ConfigX.rcd, Config.rcd] <;>
+    (cases hs <;> rfl)
+
+theorem opeFilters_base_noVw (c : ConfigX) (c0 : Config) (vw : Bool) (h : c.base = some c0) :
+    (opeFilters c).find? (fun tt => needsVw tt.1 && !vw) = none := by
+  obtain ⟨l, e, rec⟩ := c
+  cases l <;> cases e <;> simp [ConfigX.base, LearnModeX.base, EvalModeX.base] at h <;>
+    simp [opeFilters, learnType, evalType, evalOwnX, needsVw]
+
+theorem evaluateX_conservative' [DecidableEq V] [RewardFn R V] (vw : Bool) (c : ConfigX) (c0 : Config) (L : Learner σ V)
+    (bs : Option Nat) (env : List (Dict (Fld V R))) (s : σ) (h : c.base = some c0) :
+    evaluateX vw c L bs env s = .done (evaluate c0 L bs env s) := by
+  cases env with
+  | nil => simp [evaluateX, evaluate]
+  | cons first rest =>
+    have hr := (requiredX_base' c c0 L.hasScore h).1
+    simp only [evaluateX, evaluate, missingKeys, hr, opeFilters_base_noVw c c0 vw h, h]
+    split <;> simp_all
+
+theorem opeFilters_vw_of_base_none (c : ConfigX) (h : c.base = none) :
+    ∃ tt, (opeFilters c).find? (fun tt => needsVw tt.1 && !false) = some tt := by
+  obtain ⟨l, e, rec⟩ := c
+  cases l <;> cases e <;> simp [ConfigX.base, LearnModeX.base, EvalModeX.base] at h <;>
+    simp +decide [opeFilters, learnType, evalType, evalOwnX, needsVw]
+
+theorem package_guard' [DecidableEq V] [RewardFn R V] (c : ConfigX) (L : Learner σ V) (bs : Option Nat)
+    (first : Dict (Fld V R)) (rest : List (Dict (Fld V R))) (s : σ) (hb : c.base = none) :
+    (∃ keys, keys ≠ [] ∧ keys = (requiredX c L.hasScore).filter (fun k => !first.has k)
+        ∧ evaluateX false c L bs (first :: rest) s = .done (.rejected keys))
+    ∨ ((requiredX c L.hasScore).filter (fun k => !first.has k) = [] ∧
+        ∃ t tg, (t, tg) ∈ opeFilters c ∧ needsVw t = true ∧ evaluateX false c L bs (first :: rest) s = .packageMissing t tg) := by
+  obtain ⟨tt, htt⟩ := opeFilters_vw_of_base_none c hb
+  by_cases hm : (requiredX c L.hasScore).filter (fun k => !first.has k) = []
+  · right
+    refine ⟨hm, tt.1, tt.2, List.mem_of_find?_eq_some htt, ?_, ?_⟩
+    · have := List.find?_some htt; simpa using this
+    · simp only [Bool.not_false, Bool.and_true] at htt
+      simp [evaluateX, hm, htt]
+  · left
+    refine ⟨_, hm, rfl, ?_⟩
+    simp [evaluateX, hm]
+
+theorem package_learn_first' (c : ConfigX) (h : c.learn = .dr ∨ c.learn = .dm) :
+    (opeFilters c).find? (fun tt => needsVw tt.1 && !false) = (learnType c.learn).map (fun t => (t, "learn_rewards")) := by
+  obtain ⟨l, e, rec⟩ := c
+  rcases h with h | h <;> simp only at h <;> subst h <;> cases e <;>
+    simp +decide [opeFilters, learnType, evalType, evalOwnX, needsVw]
+
+theorem package_eval' (c : ConfigX) (hl : c.learn ≠ .dr ∧ c.learn ≠ .dm) (h : c.eval = .dr ∨ c.eval = .dm) :
+    (opeFilters c).find? (fun tt => needsVw tt.1 && !false) = (evalType c.eval).map (fun t => (t, "eval_rewards")) := by
+  obtain ⟨l, e, rec⟩ := c
+  rcases h with h | h <;> simp only at h <;> subst h <;> cases l <;>
+    simp +decide [opeFilters, learnType, evalType, evalOwnX, needsVw] at hl ⊢
+
+theorem result_only_package_free' [DecidableEq V] [RewardFn R V] (c : ConfigX) (L : Learner σ V) (bs : Option Nat)
+    (env : List (Dict (Fld V R))) (s : σ) (r) (hne : env ≠ [])
+    (h : evaluateX false c L bs env s = .done (.ok r)) : ∃ c0, c.base = some c0 := by
+  cases hb : c.base with
+  | some c0 => exact ⟨c0, rfl⟩
+  | none =>
+    cases env with
+    | nil => exact absurd rfl hne
+    | cons first rest =>
+      rcases package_guard' c L bs first rest s hb with ⟨k, _, _, hk⟩ | ⟨_, t, tg, _, _, hk⟩ <;> rw [hk] at h <;> cases h
+
+theorem requiredSX_eq' (c : ConfigX) (hs : Bool) :
+    requiredSX c hs = requiredX c hs ++ (if c.learn == .ips || c.eval == .ips then ["probability"] else []) := by
+  obtain ⟨l, e, rec⟩ := c
+  cases l <;> cases e <;>
+    simp +decide [requiredSX, requiredX, needPredX, outActionX, outProbX, ConfigX.rcd] <;> (cases hs <;> simp [or_assoc])
+
+theorem targets_written' (c : ConfigX) :
+    (∀ t, learnType c.learn = some t → (t, learnTargetX) ∈ opeFilters c)
+    ∧ (∀ t, evalType c.eval = some t → (t, evalTargetX c) ∈ opeFilters c)
+    ∧ ((opeFilters c).map (·.2)).Nodup
+    ∧ (evalTargetX c = learnTargetX ↔ (evalType c.eval = none ∨ evalType c.eval = learnType c.learn)) := by
+  obtain ⟨l, e, rec⟩ := c
+  cases l <;> cases e <;> simp +decide [opeFilters, learnType, evalType, evalOwnX, evalTargetX, learnTargetX]
+
+variable [DecidableEq V] [RewardFn R V]
+
+theorem rewardsCell_keys_eq {c : Config} {fl : Flags} {r : RowIn V R} {rw : Row V R}
+    (hx : rewardsCell c fl r = .ok rw) : Dict.keys rw = if c.rcd "rewards" && fl.hasRewards then ["rewards"] else [] := by
+  unfold rewardsCell at hx
+  by_cases h1 : (c.rcd "rewards" && fl.hasRewards) = true
+  · rw [if_pos h1] at hx
+    rw [if_pos h1]
+    by_cases h2 : fl.discrete = true
+    · rw [if_pos h2] at hx
+      cases ha : r.acts with
+      | none => rw [ha] at hx; cases hx
+      | some as =>
+        rw [ha] at hx
+        obtain ⟨xs, _, hrw⟩ := Except.map_eq_ok hx
+        subst hrw; simp [Dict.keys]
+    · rw [if_neg h2] at hx
+      cases hr : r.rewards with
+      | none => rw [hr] at hx; cases hx
+      | some f =>
+        rw [hr] at hx
+        simp only [Except.ok.injEq] at hx
+        subst hx; simp [Dict.keys]
+  · rw [if_neg h1] at hx
+    rw [if_neg h1]
+    simp only [Except.ok.injEq] at hx
+    subst hx; simp [Dict.keys]
+
+theorem mkRow_record_keys' {c : Config} {fl : Flags} {sp b : Bool} {r : RowIn V R} {p : Option (Pred V)} {er : Option Rat}
+    {row : Row V R} (hx : mkRow c fl sp b r p er = .ok row) (hnd : nodupKeys (Dict.keys r.extras) = true)
+    (hfr : ∀ kv ∈ r.extras, kv.1 ∉ implicitExclude) :
+    Dict.keys row = recordKeys c fl sp b (p.bind (·.prob)).isSome ++ Dict.keys r.extras := by
+  unfold mkRow at hx
+  obtain ⟨rw, hrw, hrow⟩ := Except.map_eq_ok hx
+  have hk := rewardsCell_keys_eq hrw
+  have hkm := rewardsCell_keys hrw
+  subst hrow
+  rw [foldl_set_fresh _ _ hnd]
+  · simp only [Dict.keys, List.map_append, List.map_map] at hk ⊢
+    rw [hk]
+    simp only [recordKeys]
+    simp [apply_ite (List.map (fun x : String × Cell V R => x.fst))]
+  · intro kv hkv b' hb' heq
+    apply hfr kv hkv
+    rw [← heq]
+    simp only [List.mem_append] at hb'
+    rcases hb' with ((((hb' | hb') | hb') | hb') | hb') | hb'
+    · split at hb' <;> simp at hb'; simp [hb', implicitExclude]
+    · split at hb' <;> simp at hb'; simp [hb', implicitExclude]
+    · split at hb' <;> simp at hb'; simp [hb', implicitExclude]
+    · split at hb' <;> simp at hb'; simp [hb', implicitExclude]
+    · rw [hkm b' hb']; simp [implicitExclude]
+    · split at hb' <;> simp at hb'; simp [hb', implicitExclude]
+
+theorem recordKeys_no_eval (c : Config) (fl : Flags) (sp b hp : Bool) (h : c.eval = .none) :
+    "action" ∉ recordKeys c fl sp b hp ∧ "reward" ∉ recordKeys c fl sp b hp ∧ "probability" ∉ recordKeys c fl sp b hp := by
+  simp [recordKeys, outAction, outProb, h]
+
+end Phase4
+
+/-! ## Translator obligations: the tables extracted from the current source are the ones the model uses -/
+
+theorem source_tables_match' :
+    -- `_IMPLICIT_EXCLUDE` (a set: compared as a set)
+    ((Coba.Generated.C06.implicitExclude.all (implicitExclude.contains ·)) = true
+      ∧ (implicitExclude.all (Coba.Generated.C06.implicitExclude.contains ·)) = true)
+    -- `_required`: the three key lists
+    ∧ (∀ c hs, requiredX c hs = requiredWith Coba.Generated.C06.requiredPred Coba.Generated.C06.requiredOff
+          Coba.Generated.C06.requiredRwds c hs)
+    -- `learn_type` / `eval_type` dispatch chains
+    ∧ (∀ l : LearnModeX, (learnType l).map OpeType.pyName = l.pyName.bind (fun n => Coba.Generated.C06.learnTypes.lookup n))
+    ∧ (∀ e : EvalModeX, (evalType e).map OpeType.pyName = e.pyName.bind (fun n => Coba.Generated.C06.evalTypes.lookup n))
+    -- `OpeRewards.__init__`: which types call PackageChecker.vowpalwabbit
+    ∧ (∀ t : OpeType, needsVw t = Coba.Generated.C06.vwTypes.contains t.pyName)
+    -- reward targets
+    ∧ learnTargetX = Coba.Generated.C06.learnTarget
+    ∧ (∀ c, evalTargetX c = if evalOwnX c then Coba.Generated.C06.evalTargetOwn else Coba.Generated.C06.evalTargetShared)
+    ∧ (∀ c, ((opeFilters c).map (·.2)).all (Coba.Generated.C06.opeTargets.contains ·) = true)
+    -- accepted modes (type annotations of the constructor), default record
+    ∧ (∀ l : LearnModeX, ∀ n, l.pyName = some n → Coba.Generated.C06.learnModes.contains n = true)
+    ∧ (Coba.Generated.C06.learnModes.all (fun n => [LearnModeX.on, .off, .ips, .dr, .dm].any (fun l => l.pyName == some n))) = true
+    ∧ (∀ e : EvalModeX, ∀ n, e.pyName = some n → Coba.Generated.C06.evalModes.contains n = true)
+    ∧ (Coba.Generated.C06.evalModes.all (fun n => [EvalModeX.on, .ips, .dr, .dm].any (fun e => e.pyName == some n))) = true
+    ∧ defaultRecord = Coba.Generated.C06.defaultRecord := by
+  refine ⟨⟨by decide +kernel, by decide +kernel⟩, fun _ _ => rfl, ?_, ?_, ?_, rfl, fun _ => rfl, ?_, ?_, by decide +kernel, ?_,
+    by decide +kernel, by decide +kernel⟩
+  · intro l; cases l <;> decide +kernel
+  · intro e; cases e <;> decide +kernel
+  · intro t; cases t <;> decide +kernel
+  · intro c; obtain ⟨l, e, rec⟩ := c; cases l <;> cases e <;> rfl
+  · intro l n h; cases l <;> simp [LearnModeX.pyName] at h <;> subst h <;> decide +kernel
+  · intro e n h; cases e <;> simp [EvalModeX.pyName] at h <;> subst h <;> decide +kernel
+
+end Coba.C06
+
+/-! ## Phase 4c: heterogeneous environments — an interaction is processed only if it has every key the code subscripts -/
+
+namespace Coba.C06
+section Hetero
+variable {V R : Type}
+
+theorem finalize_ok_has {b : Bool} {d d1 : Dict (Fld V R)} (h : finalize b d = .ok d1) :
+    (b = true → d.get? "actions" ≠ none ∧ d.get? "rewards" ≠ none) ∧
+    (∀ k, d1.get? k ≠ none → d.get? k ≠ none) := by
+  unfold finalize at h
+  cases b with
+  | false => simp at h; subst h; exact ⟨by simp, fun _ hk => hk⟩
+  | true =>
+    simp only [if_true] at h
+    split at h
+    · rename_i as rs ha hr
+      split at h
+      · simp only [Except.ok.injEq] at h; subst h
+        refine ⟨fun _ => ⟨by simp [ha], by simp [hr]⟩, ?_⟩
+        intro k hk
+        by_cases hkr : "rewards" = k
+        · subst hkr; simp [hr]
+        · rwa [Dict.get?_set_ne d _ hkr] at hk
+      · cases h
+    all_goals cases h
+
+theorem opeIps_ok_has {t : String} {d d1 : Dict (Fld V R)} (h : opeIps t d = .ok d1) (ht : t ∈ ["learn_rewards", "eval_rewards"]) :
+    (d.get? "action" ≠ none ∧ d.get? "reward" ≠ none) ∧
+    (∀ k, k ≠ "learn_rewards" → k ≠ "eval_rewards" → d1.get? k ≠ none → d.get? k ≠ none) := by
+  unfold opeIps at h
+  simp only [bind, Except.bind, pure, Except.pure] at h
+  repeat' split at h
+  all_goals cases h
+  rename_i _ va ha _ _ vp hp _ rr hr
+  refine ⟨⟨?_, ?_⟩, ?_⟩
+  · intro hn; rw [hn] at ha; simp [fldAction] at ha
+  · intro hn; rw [hn] at hr; simp [fldReward] at hr
+  · intro k hk1 hk2 hk
+    have : t ≠ k := by
+      simp only [List.mem_cons, List.not_mem_nil, or_false] at ht
+      rcases ht with rfl | rfl
+      · exact fun e => hk1 e.symm
+      · exact fun e => hk2 e.symm
+    rwa [Dict.get?_set_ne d _ this] at hk
+
+theorem opeIf_ok_has {on : Bool} {t : String} {d d1 : Dict (Fld V R)} (h : opeIf on t d = .ok d1) (ht : t ∈ ["learn_rewards", "eval_rewards"]) :
+    (on = true → d.get? "action" ≠ none ∧ d.get? "reward" ≠ none) ∧
+    (∀ k, k ≠ "learn_rewards" → k ≠ "eval_rewards" → d1.get? k ≠ none → d.get? k ≠ none) := by
+  cases on with
+  | false => simp [opeIf] at h; subst h; exact ⟨by simp, fun _ _ _ hk => hk⟩
+  | true => simp only [opeIf, if_true] at h; exact ⟨fun _ => (opeIps_ok_has h ht).1, (opeIps_ok_has h ht).2⟩
+
+theorem readRow_ok_has {c : Config} {fl : Flags} {d : Dict (Fld V R)} {r : RowIn V R} (h : readRow c fl d = .ok r) :
+    (fl.hasContext = true → d.get? "context" ≠ none) ∧ (fl.hasActions = true → d.get? "actions" ≠ none) ∧
+    (fl.hasRewards = true → d.get? "rewards" ≠ none) ∧ (fl.hasReward = true → d.get? "reward" ≠ none) ∧
+    (fl.hasAction = true → d.get? "action" ≠ none) := by
+  simp only [readRow, bind, Except.bind, pure, Except.pure] at h
+  repeat' split at h
+  all_goals first
+    | (simp only [Except.ok.injEq] at h; subst h
+       refine ⟨?_, ?_, ?_, ?_, ?_⟩ <;> intro hf hn <;> simp_all [whenHas, getVal, getActs, getAny, getNum])
+    | cases h
+
+theorem has_of_get? {d : Dict (Fld V R)} {k : String} (h : d.get? k ≠ none) : d.has k = true := by
+  simp only [Dict.has]; cases hg : d.get? k with
+  | none => exact absurd hg h
+  | some _ => rfl
+
+theorem prep_ok_has_needed' {c : Config} {fl : Flags} {d : Dict (Fld V R)} {r : RowIn V R} (h : prep c fl d = .ok r) :
+    missingOf c fl d = [] := by
+  simp only [prep, pipeline, bind, Except.bind] at h
+  split at h
+  · cases h
+  rename_i d3 hp
+  split at hp
+  · cases hp
+  rename_i d1 h1
+  split at hp
+  · cases hp
+  rename_i d2 h2
+  have f1 := finalize_ok_has h1
+  have f2 := opeIf_ok_has h2 (by simp)
+  have f3 := opeIf_ok_has hp (by simp)
+  have f4 := readRow_ok_has h
+  have back : ∀ k, k ≠ "learn_rewards" → k ≠ "eval_rewards" → d3.get? k ≠ none → d.get? k ≠ none :=
+    fun k a b hk => f1.2 k (f2.2 k a b (f3.2 k a b hk))
+  have back2 : ∀ k, k ≠ "learn_rewards" → k ≠ "eval_rewards" → d2.get? k ≠ none → d.get? k ≠ none :=
+    fun k a b hk => f1.2 k (f2.2 k a b hk)
+  simp only [missingOf, List.filter_eq_nil_iff, neededKeys, List.mem_append]
+  intro k hk
+  simp only [Bool.not_eq_true', Bool.not_eq_false]
+  apply has_of_get?
+  rcases hk with ((((((hk | hk) | hk) | hk) | hk) | hk) | hk) | hk
+  · split at hk
+    · rename_i hb
+      simp only [List.mem_cons, List.not_mem_nil, or_false] at hk
+      rcases hk with rfl | rfl
+      · exact (f1.1 hb).1
+      · exact (f1.1 hb).2
+    · simp at hk
+  · split at hk
+    · rename_i hb
+      simp only [List.mem_cons, List.not_mem_nil, or_false] at hk
+      rcases hk with rfl | rfl
+      · exact f1.2 _ (f2.1 hb).1
+      · exact f1.2 _ (f2.1 hb).2
+    · simp at hk
+  · split at hk
+    · rename_i hb
+      simp only [List.mem_cons, List.not_mem_nil, or_false] at hk
+      rcases hk with rfl | rfl
+      · exact back2 _ (by decide) (by decide) (f3.1 hb).1
+      · exact back2 _ (by decide) (by decide) (f3.1 hb).2
+    · simp at hk
+  · split at hk
+    · rename_i hb; simp at hk; subst hk; exact back _ (by decide) (by decide) (f4.1 hb)
+    · simp at hk
+  · split at hk
+    · rename_i hb; simp at hk; subst hk; exact back _ (by decide) (by decide) (f4.2.1 hb)
+    · simp at hk
+  · split at hk
+    · rename_i hb; simp at hk; subst hk; exact back _ (by decide) (by decide) (f4.2.2.1 hb)
+    · simp at hk
+  · split at hk
+    · rename_i hb; simp at hk; subst hk; exact back _ (by decide) (by decide) (f4.2.2.2.1 hb)
+    · simp at hk
+  · split at hk
+    · rename_i hb; simp at hk; subst hk; exact back _ (by decide) (by decide) (f4.2.2.2.2 hb)
+    · simp at hk
+
+end Hetero
+
+section Hetero2
+variable {V R σ : Type} [DecidableEq V] [RewardFn R V]
+
+theorem stepChunk_single_ok_prep {c : Config} {fl : Flags} {L : Learner σ V} {b : Bool} {s : σ} {d : Dict (Fld V R)} {out}
+    (h : stepChunk c fl L b s [d] = .ok out) : ∃ r, prep c fl d = .ok r := by
+  unfold stepChunk at h
+  cases hp : prep c fl d with
+  | ok r => exact ⟨r, rfl⟩
+  | error e => simp [prepAll, hp, bind, Except.bind] at h
+
+theorem runChunks_singles_ok {c : Config} {fl : Flags} {L : Learner σ V} {b : Bool} (env : List (Dict (Fld V R)))
+    (s : σ) (cs : List (Call V)) (rs : List (Row V R)) {out}
+    (h : runChunks c fl L b s cs rs (env.map ([·])) = .ok out) : ∀ d ∈ env, missingOf c fl d = [] := by
+  induction env generalizing s cs rs with
+  | nil => simp
+  | cons d rest ih =>
+    simp only [List.map_cons, runChunks] at h
+    cases hs : stepChunk c fl L b s [d] with
+    | error e => simp [hs, Except.bind] at h
+    | ok r1 =>
+      simp only [hs, Except.bind] at h
+      obtain ⟨r, hr⟩ := stepChunk_single_ok_prep hs
+      intro d' hd'
+      simp only [List.mem_cons] at hd'
+      rcases hd' with rfl | hd'
+      · exact prep_ok_has_needed' hr
+      · exact ih _ _ _ h d' hd'
+
+theorem hetero_evaluates_only_if' (c : Config) (L : Learner σ V) (first : Dict (Fld V R)) (rest : List (Dict (Fld V R)))
+    (s : σ) (out) (h : evaluate c L none (first :: rest) s = .ok out) :
+    ∀ d ∈ first :: rest, missingOf c (mkFlags first) d = [] := by
+  unfold evaluate at h
+  simp only at h
+  split at h
+  · cases h
+  · rw [chunks_one] at h
+    cases hr : runChunks c (mkFlags first) L false s [] [] ((first :: rest).map ([·])) with
+    | error e => simp only [List.map_cons] at hr; simp [hr, Outcome.ofExcept] at h
+    | ok o => exact runChunks_singles_ok _ s [] [] hr
+
+end Hetero2
 end Coba.C06
